@@ -77,6 +77,9 @@ func (g *Gen) litFor(typ Type, op string) []Lit {
 	switch op {
 	case "in", "not in":
 		n = 1 + r.Intn(3)
+		if r.P(0.08) {
+			n = 16 + r.Intn(9) // a long list (values repeat: the pools are smaller)
+		}
 	case "between", "not between":
 		n = 2
 	}
